@@ -2,6 +2,7 @@ import SlogModel.Model.Time
 import SlogModel.Model.Parse
 import SlogModel.Model.Frame
 import SlogModel.Model.Route
+import SlogModel.Model.Redact
 import SlogModel.Gen.Facts
 import Driver.Util
 
@@ -181,6 +182,12 @@ def handle (st : DState) (line : String) : DState × String :=
   | "parse" :: rest => handleParse st rest
   | "frame" :: rest => handleFrame st rest
   | "route" :: rest => handleRoute st rest
+  | ["redact", h] =>
+    match unhex h with
+    | none => (st, "bad-op")
+    | some bs =>
+      let (o, counted) := Redact.transform bs
+      (st, s!"{hex o} {if counted then 1 else 0}")
   | _ => (st, "bad-op")
 
 partial def loop (hin hout : IO.FS.Stream) (st : DState) : IO Unit := do
